@@ -46,7 +46,10 @@ def instances(tier: str) -> list[dict]:
         add("T4", "adv", 2, 2)
         add("T5a", "neutral", 1, 1)
         add("T5b", "adv", 1, 1)
+        add("F4", "neutral", 2, 2, kinds=("named",))
     else:
+        add("F4", "neutral", 2, 2, kinds=("named",))
+        add("F4", "adv", 2, 2, kinds=("named",))
         for nm in ("neutral", "adv"):
             add("T4", nm, 3, 3)
         for t in ("T5a", "T5b", "T5c", "T5d"):
